@@ -136,6 +136,51 @@ func runScenario(r *vrun.Run, sc scenario, keep bool) *result {
 				dcancel()
 				lockh.Sleep(root, 3*lockh.Period)
 			}
+			if sc.Kind == "handover" {
+				// two live holders hand the lock over to each other while observers read its staleness
+				stop := make(chan struct{})
+				var owg, hwg sync.WaitGroup
+				for i := 0; i < sc.Observers; i++ {
+					name := fmt.Sprintf("o%d", i)
+					every := time.Duration([]int{3, 5, 7, 11}[i%4]) * time.Millisecond
+					owg.Add(1)
+					go func() {
+						defer owg.Done()
+						ol := w.NewLock(name, false)
+						for {
+							select {
+							case <-stop:
+								return
+							default:
+							}
+							isStale(w, res, name, ol)
+							lockh.Sleep(root, every)
+						}
+					}()
+				}
+				for h := 0; h < 2; h++ {
+					name := fmt.Sprintf("h%d", h)
+					hwg.Add(1)
+					go func(h int) {
+						defer hwg.Done()
+						hrng := r.Rand(sc.Stream+"-"+name, sc.Index)
+						l := w.NewLock(name, false)
+						for c := 0; c < sc.HoldPeriods; c++ {
+							if err := w.Call(name, "Lock", "acquire", func() (string, error) { return "", l.Lock(root) }); err != nil {
+								return
+							}
+							lockh.Sleep(root, time.Duration(20+hrng.IntN(50))*time.Millisecond)
+							_ = w.Call(name, "Unlock", "release", func() (string, error) { return "", l.Unlock(root) })
+							lockh.Sleep(root, time.Duration(hrng.IntN(8))*time.Millisecond)
+						}
+					}(h)
+				}
+				hwg.Wait()
+				close(stop)
+				owg.Wait()
+				cancelAll()
+				return
+			}
 			hctx, hcancel := context.WithCancel(root)
 			defer hcancel()
 			hl := w.NewLock("holder", sc.Takeover)
@@ -326,6 +371,17 @@ func analyse(r *vrun.Run, res *result) {
 			r.Obs("live_cases_where_the_holder_took_over_a_stale_lock", 1)
 		}
 		nontrivial = sc.Observers > 0 && polls+len(hist) > 10
+	case "handover":
+		polls := 0
+		for _, o := range res.obs {
+			polls++
+			if o.Val && !w.StaleReadableDuring(o.CallT, o.RetT) {
+				r.Violation(vrun.Sig{"clause": "soundness", "effect": "live-lock-reported-stale", "pre": "hand-over-between-two-live-holders"},
+					fmt.Sprintf("IsStale()=true by %s during [%d,%d]ms although at no instant of the call any incarnation of the lock was stale (two live holders handing the lock over)", o.Actor, o.CallT.Sub(w.Start).Milliseconds(), o.RetT.Sub(w.Start).Milliseconds()), witness())
+			}
+		}
+		r.Obs("isstale_polls_during_handovers", int64(polls))
+		nontrivial = polls > 10
 	case "death":
 		if !res.died {
 			r.Obs("death_points_beyond_issued_ops", 1)
@@ -480,6 +536,10 @@ func main() {
 	if r.Quick() {
 		cases = append(cases, scenario{Kind: "live", HoldPeriods: 500, Observers: 3, Acquire: "try", Policy: "random", AdvanceP: 0.5, Stream: "live"})
 	}
+	// hand-over between two live holders (HoldPeriods = cycles per holder)
+	for k := 0; k < r.Pick(120, 3000); k++ {
+		cases = append(cases, scenario{Kind: "handover", HoldPeriods: 3 + k%4, Observers: 2 + k%3, Policy: pols[k%2], AdvanceP: []float64{0.1, 0.3, 0.5}[k%3], Stream: "handover"})
+	}
 	// death: every j
 	maxJ := 34
 	dreps := r.Pick(12, 60)
@@ -503,6 +563,7 @@ func main() {
 		analyse(r, runScenario(r, cases[i], true))
 	})
 	r.Require("isstale_polls_on_live_lock", 2000)
+	r.Require("isstale_polls_during_handovers", 3000)
 	r.Require("death_points", 20)
 	r.Require("recoveries_observed", 100)
 	r.Require("isstale_calls_that_had_to_report_stale", 100)
